@@ -470,7 +470,7 @@ Lemma index_tx_sat_plain : forall h t b b',
   SI b -> b_lost_ranges b = [] -> NullR (s_utxo (b_st b)) (b_lost b) ->
   tx_plain t -> ins_real t -> t_id t <> 0 ->
   index_tx cfg h true false t b = Ok b' ->
-  SI b' /\ b_lost_ranges b' = [] /\ NullR (s_utxo (b_st b')) (b_lost b').
+  SI b' /\ b_lost_ranges b' = [] /\ NullR (s_utxo (b_st b')) (b_lost b') /\ b_lost b' = b_lost b.
 Proof.
   intros h t b b' [D HE HK HF HC HO] HLR HN HP HR Hz H.
   pose proof (index_tx_off cfg _ _ _ _ _ _ HO H) as HOff'.
@@ -522,7 +522,7 @@ Proof.
   pose proof (apply_locs_aux _ _ _ _ _ EL) as (A1 & A2 & A3 & A4 & A5 & _).
   cbn [set_st b_st b_flot b_reward b_lost b_next b_cb_ranges b_lost_ranges] in A1, A2, A3, A4, A5.
   destruct (split_sats_spec _ _ _ _ ESp) as [_ HLf].
-  split; [|split].
+  split; [|split; [|split]]; [| | |cbn [b_lost]; exact A3].
   - split; cbn [b_st b_next b_flot b_cb_ranges b_lost_ranges b_reward]; auto.
     + rewrite A5, HLR. exact E3.
     + rewrite A1, A4. intros f s Hf Ho. apply in_app_or in Hf. destruct Hf as [Hf|Hf].
@@ -617,3 +617,36 @@ Proof.
       * destruct (update_old_shape _ _ _ _ _ _ _ _ Ho E0) as (_ & _ & _ & _ & _ & _ & (_ & _ & Q & _) & _). congruence.
 Qed.
 End SatTx.
+
+(* ---- blocks and chains (sat index on, inscriptions indexed from height 0) *)
+
+Section SatChain.
+Variable cfg : config.
+Hypothesis HS : c_sats cfg = true.
+Hypothesis HF0 : c_first cfg = 0.
+
+Definition tx_ok3 (t : tx) : Prop := tx_plain t /\ ins_real t /\ t_id t <> 0.
+Definition block_ok3 (blk : block) : Prop :=
+  match blk with [] => True | t0 :: r => (tx_cb t0 /\ t_id t0 <> 0) /\ Forall tx_ok3 r end.
+
+Record SIs (st : state) : Prop := {
+  ss_dom : DomIff (next_seq_of (s_entries st)) (s_entries st);
+  ss_ent : EntInv (s_entries st) (s_utxo st) [];
+  ss_key : KeyU (s_entries st) (s_utxo st);
+  ss_off : Off cfg (s_utxo st);
+  ss_null : NullR (s_utxo st) (s_lost st)
+}.
+
+Lemma index_txs_sat : forall h l b b',
+  SI cfg b -> b_lost_ranges b = [] -> NullR (s_utxo (b_st b)) (b_lost b) -> Forall tx_ok3 l ->
+  index_txs cfg h true l b = Ok b' ->
+  SI cfg b' /\ b_lost_ranges b' = [] /\ NullR (s_utxo (b_st b')) (b_lost b') /\ b_lost b' = b_lost b.
+Proof.
+  intros h l. induction l as [|t r IH]; intros b b' HI HL HN HF H; cbn [index_txs] in H.
+  - inv H. auto.
+  - dbind H. apply Forall_cons_iff in HF. destruct HF as [(F1 & F2 & F3) HF2].
+    destruct (index_tx_sat_plain cfg HS h t b a HI HL HN F1 F2 F3 E) as (I1 & L1 & N1 & Hl).
+    destruct (IH _ _ I1 L1 N1 HF2 H) as (I2 & L2 & N2 & Q2).
+    split; [exact I2|]. split; [exact L2|]. split; [exact N2|]. rewrite Q2. exact Hl.
+Qed.
+End SatChain.
